@@ -6,6 +6,7 @@ import (
 	"os"
 	"runtime"
 	"sync"
+	"sync/atomic"
 	"time"
 
 	z80 "github.com/koron-go/z80"
@@ -99,24 +100,34 @@ func auxRaceC13() int {
 			p := &progs[pi]
 			mem := obs.NewMem(bg)
 			mem.Poke(0x0100, p.code...)
-			cpu := &z80.CPU{Memory: &plainMem{m: mem}, IO: &obs.IO{X: 1, Fixed: true}}
+			pm := &plainMem{m: mem}
+			cpu := &z80.CPU{Memory: pm, IO: &obs.IO{X: 1, Fixed: true}}
 			cpu.PC, cpu.SP = 0x0100, 0xF000
+			cpu.IR.Lo = uint8(rep) // the refresh register varies between calls
 			ctx, cancel := context.WithCancel(context.Background())
 			done := make(chan error, 1)
-			go func() { done <- cpu.Run(ctx) }()
+			go func() {
+				defer func() {
+					if r := recover(); r != nil {
+						done <- errAuxWatchdog
+					}
+				}()
+				done <- cpu.Run(ctx)
+			}()
 			// cancellation instant: a varying amount of scheduler yields
 			for i := 0; i < rep%17; i++ {
 				runtime.Gosched()
 			}
 			cancel()
-			select {
-			case err := <-done:
-				if err != nil && err != context.Canceled {
-					bad++
-				}
-			case <-time.After(20 * time.Second):
-				fmt.Println("auxrace C13: Run did not return 20 s after cancel for program", p.name)
+			atomic.StoreInt32(&pm.cancelled, 1)
+			// no wall-clock oracle: the memory aborts the run after 3*10^6 accesses made after cancel()
+			err := <-done
+			if err == errAuxWatchdog {
+				fmt.Printf("auxrace C13: Run had not returned 3000000 memory accesses after cancel() for program %q (call %d, R0=%02X)\n", p.name, n, uint8(rep))
 				return 3
+			}
+			if err != nil && err != context.Canceled {
+				bad++
 			}
 			n++
 		}
@@ -137,8 +148,24 @@ func auxRaceC13() int {
 	return 0
 }
 
-// plainMem is a memory without logging for free-running passes (obs.Mem logs grow without bound in endless loops).
-type plainMem struct{ m *obs.Mem }
+var errAuxWatchdog = fmt.Errorf("watchdog")
 
-func (p *plainMem) Get(a uint16) uint8    { return p.m.Peek(a) }
-func (p *plainMem) Set(a uint16, v uint8) { p.m.Poke(a, v) }
+// plainMem is a memory without logging for free-running passes (obs.Mem logs grow without bound in
+// endless loops). Once cancelled is set it counts accesses and aborts the run after 3*10^6.
+type plainMem struct {
+	m         *obs.Mem
+	cancelled int32
+	after     int
+}
+
+func (p *plainMem) tick() {
+	if atomic.LoadInt32(&p.cancelled) != 0 {
+		p.after++
+		if p.after > 3000000 {
+			panic(errAuxWatchdog)
+		}
+	}
+}
+
+func (p *plainMem) Get(a uint16) uint8    { p.tick(); return p.m.Peek(a) }
+func (p *plainMem) Set(a uint16, v uint8) { p.tick(); p.m.Poke(a, v) }
